@@ -29,9 +29,9 @@ def value_pool(t: str) -> List[Any]:
     if t == "long":
         return [0, 1, -1, 2, 10, 2**53 + 1, 2**53, -2**63, 2**63 - 1]
     if t == "float":
-        return [0.0, 0.5, -1.0, 1.0, f32(0.1), f32(16777217.0), NAN, float("inf"), float("-inf")]
+        return [0.0, -0.0, 0.5, -1.0, 1.0, f32(0.1), f32(16777217.0), NAN, float("inf"), float("-inf")]
     if t == "double":
-        return [0.0, 0.5, -1.0, 1.0, 0.1, 1e300, NAN, float("inf"), float("-inf"), 2.0]
+        return [0.0, -0.0, 0.5, -1.0, 1.0, 0.1, 1e300, NAN, float("inf"), float("-inf"), 2.0]
     if t == "date":
         return [dt.date(1970, 1, 1), dt.date(2024, 2, 29), dt.date(1969, 12, 31), dt.date(9999, 12, 31)]
     if t == "time":
